@@ -32,4 +32,7 @@ try:
             print("   [%s] CANNOT ANALYSE\n%s" % (p, out[-800:]))
     print("FIRED:", fired)
 finally:
-    shutil.rmtree(root, ignore_errors=True)
+    if os.environ.get("KEEP"):
+        print("KEPT:", root)
+    else:
+        shutil.rmtree(root, ignore_errors=True)
